@@ -23,7 +23,8 @@ RULE = (
     "pc-feature and template-feature stores, with and without a row (spike-id) table (>= 2 stored "
     "rows): get_features for strictly increasing spike subsets (also unstored spikes; values "
     "claimed for stored spikes only) x channel permutations/sub-lists, get_template_features for "
-    "stored spikes. (pca) no feature files but a waveform store: features must equal +-X_c u_k "
+    "stored spikes. (pca) no feature files but a waveform store (read back from the exported files; half of "
+    "the cases with rows padded by -1): features must equal +-X_c u_k "
     "for the three leading eigenvectors of cov(X_c)+I/n (only components with a relative "
     "eigen-gap > 1e-6; rtol 1e-4 because PCs are rounded to float32); one hand-made case requests "
     "1200 spikes at once (thorough: 999 / 1000 / 1200 / 2500). Oracle: triple loop 'value "
@@ -90,7 +91,9 @@ def _pca_case(draw):
     kc = draw(st.integers(1, nc))
     ch = draw(st.lists(st.integers(0, nc - 1), min_size=kc, max_size=kc, unique=True))
     return {'k': 'pca', 'spec': spec, 'spikes': sp, 'channels': ch,
-            'max_per_template': draw(st.integers(2, 8)), 'max_channels': draw(st.integers(1, nc))}
+            'max_per_template': draw(st.integers(2, 8)), 'max_channels': draw(st.integers(1, nc)),
+            # the default neighbourhood (12) exceeds the channel count: stored rows are -1 padded
+            'padded': draw(st.booleans())}
 
 
 def _pca_large_cases(th):
@@ -242,6 +245,12 @@ def _check_model(case):
                             raise Violation('get_features(spike %d, channel %d) is not the stored '
                                             'value / zero' % (s, c), key='get_features',
                                             observed=out[i, j], expected=e)
+                # the result belongs to the caller: editing it must not change a repeated request
+                keep = np.array(out, copy=True)
+                if core.scribble(out):
+                    again = must_return('get_features (same request again)', m.get_features, spa, cha)
+                    same_array('get_features (same request again, after the first result was '
+                               'edited in place)', again, keep, key='get_features-second-call')
                 for c in ch:
                     has = [c in T.pcf_ind[int(T.spike_templates[s])].tolist() for s in sp]
                     if any(has) and not all(has):
@@ -273,7 +282,8 @@ def _check_pca(case):
         T = D.build(spec, d / 'ds')
         m = D.load(T, must_return)
         try:
-            m.n_closest_channels = min(m.n_closest_channels, spec['nc'])
+            if not case.get('padded'):
+                m.n_closest_channels = min(m.n_closest_channels, spec['nc'])
             np.random.seed(spec['seed'] % (2 ** 32))    # SpikeSelector draws from np.random
             sel = D.store_selection_size(T, m, case['max_per_template'])
             if sel < 2:
@@ -292,8 +302,20 @@ def _check_pca(case):
             out = must_return('get_features (PCA path)', m.get_features, sp, ch)
             require(out.shape == (len(sp), len(ch), 3), 'PCA features shape', key='pca-shape',
                     observed=out.shape, expected=(len(sp), len(ch), 3))
-            X = np.asarray(must_return('get_waveforms', m.get_waveforms, stored, ch),
-                           dtype=np.float64)
+            # the waveforms of the stored spikes on the requested channels, read from the exported
+            # store files (zeros where a channel is not stored for a spike; -1 pads the rows)
+            f_ids = np.load(T.dir / '_phy_spikes_subset.spikes.npy')
+            f_ch = np.load(T.dir / '_phy_spikes_subset.channels.npy')
+            f_wav = np.load(T.dir / '_phy_spikes_subset.waveforms.npy')
+            X = np.zeros((len(stored), f_wav.shape[1], len(ch)))
+            for i, s_ in enumerate(stored):
+                r = int(np.nonzero(f_ids == s_)[0][0])
+                for j, c_ in enumerate(ch):
+                    k_ = np.nonzero(f_ch[r] == c_)[0]
+                    if len(k_):
+                        X[i, :, j] = f_wav[r, :, int(k_[0])]
+            if np.any(f_ch == -1):
+                info['padded'] = True
             n = X.shape[0]
             pos = {int(s): i for i, s in enumerate(sp)}
             for s in sp:
@@ -330,6 +352,13 @@ def _check_pca(case):
                     require(ok, 'feature %d on channel %d is not the projection on the principal '
                             'component' % (k, int(ch[c])), key='pca-projection', observed=got,
                             expected=e)
+            keep = np.array(out, copy=True)
+            if core.scribble(out):
+                again = must_return('get_features (PCA path, same request again)', m.get_features,
+                                    sp, ch)
+                same_array('get_features (PCA path, same request again, after the first result '
+                           'was edited in place)', again, keep, key='pca-second-call',
+                           tol=(1e-6, 1e-9))
         finally:
             m.close()
     return info
@@ -391,4 +420,6 @@ def classify(case, info):
             labels.append('pca:some-spikes-outside-store')
         if case.get('large'):
             labels.append('pca:>=1000-spikes-in-one-request')
+        if info.get('padded'):
+            labels.append('pca:store-rows-padded-with--1')
     return labels, nt
